@@ -14,6 +14,8 @@ R05.5 (tables) converter <-> representation code agreement of the declarations.
 R05.6 (BytesAI, shared with C06) DTIME / IDENT / ASCII / UVARI emitters are exact.
 R05.7 (value-flow normal form) setters store the checker's *result*; no property getter of an Attribute stores anything (an inferred
       representation code is recomputed from the current value).
+R05.8 (shared, = C02 R02.1/2/4/5 + C10 R10.1-3) the transport below the records: segments partition each body in order with
+      correct bracketing and padding, the output buffer and the byte writer hand on exactly those bytes.
 """
 
 from __future__ import annotations
@@ -45,6 +47,8 @@ def run(chk):
     chk.guard(r05_5_converters, chk)
     chk.guard(r05_6_emitters, chk)
     chk.guard(r05_7_setters, chk)
+    from ._layout import transport_integrity
+    chk.guard(transport_integrity, chk, "R05.8")
 
 
 def r05_1_forwarding(chk):
